@@ -309,7 +309,7 @@ class C11(Prop):
         'a send attempt on the already closed descriptor (fails with EBADF, nothing reaches the OS) is not counted as a write after close',
         'poller contract as verified by C10: _write(fd) is delivered once per iteration while the component is registered as writer',
     )
-    budget = {'quick': (1000, 4), 'thorough': (8000, 16)}
+    budget = {'quick': (1000, 4), 'thorough': (50000, 16)}
 
     def setup(self):
         driver.quiet_process()
